@@ -394,45 +394,9 @@ def check_immutability(chk, modules=('runtime', 'model'), rule='C08.M', only_fun
 
 
 def check_arg_list(chk):
-    ee = EvalExpr(chk.repo, 'C08.A')
-    st = ee.sections.get('function', [])
-    calls = [n for s in st for n in ast.walk(s) if isinstance(n, ast.Call) and isinstance(n.func, ast.Name) and n.func.id.endswith('value') and len(n.args) == 2]
-    if len(calls) != 1:
-        raise Unrecognised('C08.A', 'call of the function value not found', ee.mod.rel)
-    arg = calls[0].args[0]
-    defs = [n.value for s in st for n in ast.walk(s) if isinstance(n, ast.Assign) and norm(n.targets[0]) == norm(arg)]
-    if len(defs) != 1:
-        raise Unrecognised('C08.A', f'argument list {norm(arg)} is not a single-assignment local', ee.mod.rel)
-    d = defs[0]
-
-    def kind(e):
-        if isinstance(e, ast.IfExp):
-            return kind(e.body) | kind(e.orelse)
-        if isinstance(e, (ast.ListComp, ast.List)):
-            return {'fresh'}
-        if isinstance(e, ast.Call) and call_name(e) == 'list':
-            return {'fresh'}
-        if isinstance(e, ast.Constant) and e.value is None:
-            return {'None'}
-        if isinstance(e, ast.BoolOp):
-            out = set()
-            for v in e.values:
-                out |= kind(v)
-            return out
-        if "['function']" in norm(e) or ".get('args'" in norm(e):
-            return {'model'}
-        return {norm(e)[:40]}
-    ks = kind(d)
-    if ks == {'fresh'}:
-        chk.ok('C08.A', f'argument list is built per call: {norm(d)[:80]}')
-    elif 'None' in ks:
-        chk.bad('C08.A', ee.mod, 'evaluate_expression', norm(d)[:120],
-                "the argument list can be None (function expression without the optional 'args'): every library function and every script function with parameters "
-                "then fails on len(None) and the call silently evaluates to null", node=d)
-    elif 'model' in ks:
-        chk.bad('C08.A', ee.mod, 'evaluate_expression', norm(d)[:120], "the model's own args list is handed to the callee, which completes and rewrites its argument list in place", node=d)
-    else:
-        raise Unrecognised('C08.A', f'argument list construction not understood: {norm(d)[:80]}', ee.mod.rel)
+    from .. import evalsim
+    evalsim.report(chk, {'args': 'C08.A'}, {'args': 'the argument list handed to a function value is a list built for that call (never None, never the model\'s list, not shared between calls), '
+                                                    'arguments evaluated left to right, under the same options object'})
 
 
 def run(chk):
